@@ -9,7 +9,12 @@ import (
 	"fmt"
 	"runtime/debug"
 	"sync/atomic"
+	"time"
 )
+
+// HangTimeout is how long Run waits (real time) for an execution that normally takes
+// microseconds; exceeding it means some thread blocked outside the scheduler's control.
+var HangTimeout = 30 * time.Second
 
 // Outcome of one controlled execution.
 type Outcome int
@@ -20,10 +25,11 @@ const (
 	Livelock
 	Panicked
 	Diverged
+	Hung
 )
 
 func (o Outcome) String() string {
-	return [...]string{"ok", "deadlock", "livelock", "panic", "diverged"}[o]
+	return [...]string{"ok", "deadlock", "livelock", "panic", "diverged", "hung"}[o]
 }
 
 // PointRec records one decision at which more than one thread was enabled.
@@ -104,7 +110,15 @@ func Run(prefix []int, maxSteps int, prune func(*Sched) bool, keepTrace bool, bo
 	s.running = t0
 	go s.threadMain(t0, body)
 	t0.wake <- struct{}{}
-	<-s.fin
+	select {
+	case <-s.fin:
+	case <-time.After(HangTimeout):
+		// threads of this execution are stuck in a real blocking operation; the process
+		// cannot run further executions (caller must exit after reporting)
+		s.Outcome = Hung
+		s.Detail = "execution did not finish: a thread blocked in an operation the scheduler does not control (e.g. a blocking channel send)"
+		return s
+	}
 	s.unwinding = true
 	// Unwind every thread that has not finished, one at a time, so that nothing of this
 	// execution is still running when the next one starts.
